@@ -69,6 +69,14 @@ func scalarClass(name string, p *prg) *big.Int {
 		return new(big.Int).Rsh(modR, 1)
 	case "2^64":
 		return sh(64)
+	case "2^64-1":
+		return new(big.Int).Sub(sh(64), one)
+	case "2^63":
+		return sh(63)
+	case "2^128-1":
+		return new(big.Int).Sub(sh(128), one)
+	case "2^192-1":
+		return new(big.Int).Sub(sh(192), one)
 	case "2^128":
 		return sh(128)
 	case "2^252":
